@@ -96,7 +96,14 @@ func (e *Engine) RunRoot(fn *ssa.Function) (err error) {
 			}
 			s.assume(t)
 		}
-		if len(fr.contract.Requires) > 0 {
+		for _, c := range fr.contract.RepInv {
+			t, err := e.evalClause(s, fr, c, nil, nil)
+			if err != nil {
+				return fmt.Errorf("%s: rep_invariant %q: %v", e.rootKey, c.Src, err)
+			}
+			s.assume(t)
+		}
+		if len(fr.contract.Requires) > 0 || len(fr.contract.RepInv) > 0 {
 			// vacuity: requires must be satisfiable
 			s.addCover("cover", e.rootKey+"#cover:requires", fn.Pos(), "requires satisfiable")
 		}
@@ -895,6 +902,11 @@ func (e *Engine) execBinOp(s *State, fr *Frame, x *ssa.BinOp) {
 		s.assume(nz)
 		// Go truncates toward zero; SMT div/mod are floor/euclidean for positive divisor
 		q := e.goDiv(a, b)
+		if _, lit := litValue(b); !lit {
+			// symbolic divisor: the solvers treat div as non-linear; state the elementary bound |a/b| <= |a|
+			// (true for every b != 0) so that range checks on the quotient stay linear
+			s.assume(Ite(Ge(a, IntLit(0)), And(Le(Sub(IntLit(0), a), q), Le(q, a)), And(Le(a, q), Le(q, Sub(IntLit(0), a)))))
+		}
 		if x.Op == token.QUO {
 			r = wrapInt(q, rt)
 		} else {
